@@ -72,7 +72,7 @@ def build_case(rng, everything=False, flat=False):
     return c
 
 
-def run_case(c, rng, sb, order, res, patterns=None):
+def run_case(c, rng, sb, order, res, patterns=None, allow_extra_input=True):
     """Executes the case; fills c.ref / c.fr / c.out_abs / c.inp. `patterns`: fixed list, else generated."""
     inp = os.path.join(sb, "work", "proj")
     c.inp = inp
@@ -122,7 +122,22 @@ def run_case(c, rng, sb, order, res, patterns=None):
     for p in c.patterns:
         src[rng.choice(["cli", "cli", "sfile", "user"])].append(p)
     c.sources = {k: list(v) for k, v in src.items()}
-    argv = [inp, "-o", out_abs]
+    # the input may be spelled relatively (cwd = work); a second input (a lone file) follows in 40% of the runs and may
+    # itself be excluded by a pattern
+    spelled = rng.choice([inp, inp, "proj", "./proj", "proj/"])
+    c.extra_input = None
+    if allow_extra_input and rng.random() < 0.4 and not c.everything:
+        xdir = os.path.join(sb, "work", "extra_in")
+        os.makedirs(xdir, exist_ok=True)
+        c.extra_input = os.path.join(xdir, "xin_file.cmake")
+        with open(c.extra_input, "w") as f:
+            f.write(cmake_text("xin_file.cmake"))
+        if patterns is None and rng.random() < 0.5:
+            c.patterns.append(rng.choice(["xin_file.cmake", c.extra_input, "xin_*", "**/xin_file.cmake", "extra_in/", xdir + "/"]))
+            c.forms.append("extra-input-excluded")
+            src[rng.choice(["cli", "sfile", "user"])].append(c.patterns[-1])
+            c.sources = {k: list(v) for k, v in src.items()}
+    argv = [spelled] + ([rng.choice([c.extra_input, os.path.relpath(c.extra_input, cwd)])] if c.extra_input else []) + ["-o", out_abs]
     if c.recursive:
         argv.append("-r")
     for p in src["cli"]:
@@ -142,13 +157,20 @@ def run_case(c, rng, sb, order, res, patterns=None):
     c.spec = gitmatch.Spec(c.patterns)
     c.ref = reference_walk(c.tree, inp, c.recursive, c.auto, c.spec)
     c.want = expected_outputs(c.ref)
+    c.extra_page_expected = None
+    if c.extra_input:
+        xd = os.path.dirname(c.extra_input)
+        excluded = c.spec.excluded(c.extra_input, False) or c.spec.excluded(xd, True)
+        c.extra_page_expected = not excluded
+        if not excluded:
+            c.want = set(c.want) | {"xin_file.rst"}
     c.fr = fsrun.run_monitored(sb, argv, cwd, home, order=order)
     c.got = fsrun.files_under(out_abs) if os.path.isdir(out_abs) else set()
     return c
 
 
 def witness(c):
-    return {"argv": c.argv, "patterns": c.patterns, "pattern_sources": c.sources, "recursive": c.recursive,
+    return {"argv": c.argv, "extra_input": getattr(c, "extra_input", None), "patterns": c.patterns, "pattern_sources": c.sources, "recursive": c.recursive,
             "auto_exclude": c.auto, "tree_dirs": sorted(c.tree.dirs), "tree_files": sorted(c.tree.files),
             "expected": sorted(c.want), "got": sorted(c.got),
             "listings": [(os.path.relpath(p, c.inp), n) for p, n in c.fr.scandir_log][:30]}
